@@ -214,10 +214,19 @@ def r3(ctx):
             head = cfg.node_of(lp)
             conts = [n for n in cfg.g.nodes if cfg.kind(n) == "continue" and any(x is cfg.ast(n) for x in ast.walk(lp))]
             for cn in conts:
-                ga = {(t, p) for t, p in guard_atoms(cfg, cn) if not t.startswith("<iter>")}
-                if not all(("None" in t) or ("len(%s.phase)" % phv in t) or t.startswith("(") for t, p in ga):
+                stmt = cfg.ast(cn)
+                conds = []
+                anc = stmt
+                while anc is not None and anc is not lp:
+                    if isinstance(anc.parent, ast.If) and anc in anc.parent.body:
+                        t = anc.parent.test
+                        conds.extend(t.values if isinstance(t, ast.BoolOp) and isinstance(t.op, ast.Or) else [t])
+                    anc = anc.parent
+                allowed = ("%s is None" % phv, "len(%s.phase) != 2" % phv, "None in %s.phase" % phv, "%s.phase[0] is None" % phv, "%s.phase[1] is None" % phv, "not %s" % phv)
+                extra = [u(c) for c in conds if u(c) not in allowed]
+                if extra:
                     ok = False
-                    detail = "a phased call is skipped under %s" % sorted(ga)
+                    detail = "an already phased call is skipped under %s: it comes out unphased" % extra
     ctx.ob(cs.qual, "phased-calls-carried", ok, cs.loc(loops[0]) if loops else cs.loc(), "every call with an input phase is emitted with that phase's alleles on super-reads 0/1, whether or not a tagged read covers it" if ok else detail)
     # the vote loop must not touch positions that were carried
     vl = [n for n in walk_function(cs.node) if isinstance(n, ast.For) and u(n.iter) in ("votes.items()", "votes")]
